@@ -33,12 +33,17 @@ def config_plan(pg):
     streams = {"primary": [shared, other], "aux": [shared]}
     body = [msg(S, "open_run")]
     val = 1.0
+    monitored = "sigC" in pg.specs and rng.random() < 0.5
+    if monitored:
+        # a monitor stream also 'contains' its object: after configure its events need the new descriptor too
+        streams["sigC_monitor"] = ["sigC"]
+        body.append(msg(S, "monitor", "sigC", name="sigC_monitor"))
     for _ in range(rng.choice([4, 5, 6, 7])):
         r = rng.random()
         if r < 0.35:
             val += 1.0
-            dev = rng.choice([shared, shared, other])
-            key = "exposure" if pg.specs[dev]["kind"] in ("det", "pdet") else "velocity"
+            dev = rng.choice([shared, shared, other] + (["sigC", "sigC"] if monitored else []))
+            key = "averaging" if dev == "sigC" else "exposure" if pg.specs[dev]["kind"] in ("det", "pdet") else "velocity"
             if rng.random() < 0.5:
                 body.append(msg(S, "checkpoint"))
             body.append(msg(S, "configure", dev, **{key: val}))
@@ -49,7 +54,8 @@ def config_plan(pg):
             body.append(msg(S, "create", None, name=stream))
             for o in streams[stream]:
                 body.append(msg(S, "read", o))
-            body.append(msg(S, "save"))
+            # a dropped bundle reads (and caches) the configuration without making a descriptor
+            body.append(msg(S, "drop") if rng.random() < 0.25 else msg(S, "save"))
     body.append(msg(S, "close_run"))
     return body, streams
 
@@ -58,6 +64,7 @@ def cases(seed, tier):
     rng = gen.rng_for(ID, seed)
     specs = gen.gen_world(rng, dets=2, flyers=0, p_async=0.5)
     specs["sigS"] = {"kind": "signal", "initial": 0}
+    specs["sigC"] = {"kind": "csignal", "initial": 0}
     pg = gen.PlanGen(rng, specs)
     body, streams = config_plan(pg)
     case = {
@@ -76,10 +83,12 @@ def cases(seed, tier):
     for j in range(K):
         c = copy.deepcopy(case)
         c["variant"] = j
-        inj = gen.gen_injections(rng, n, kinds=["pause", "pause", "trip"], k=rng.choice([1, 1, 2, 3]), slack=2)
+        inj = gen.gen_injections(rng, n, kinds=["pause", "pause", "trip"] + (["put", "put", "put"] if "sigC_monitor" in streams else []), k=rng.choice([1, 1, 2, 3]), slack=2)
         for i in inj:
             if i["do"] == "trip":
                 i["args"] = generic.trip_args(rng)
+            elif i["do"] == "put":
+                i["args"] = {"signal": "sigC", "value": 100 + j * 10 + len(inj)}
         c["script"][ci]["inject"] = inj
         c["script"][ci]["decisions"] = [{"do": "resume"} for _ in range(5)]
         c["script"][ci]["final"] = "resume"
@@ -96,6 +105,8 @@ def check(res):
     evs = inv.events
     streams = next(s for s in res.case["script"] if s.get("main"))["streams"]
     last_cfg = {}  # dev -> data returned by the latest read_configuration()
+    true_cfg = {}  # dev -> the device's actual configuration (changes only through configure())
+    pending_cfg = {}
     configured_at = {}  # dev -> seq of the latest completed configure
     descs = {}  # uid -> (seq, doc)
     first_keys = {}
@@ -105,11 +116,24 @@ def check(res):
             msgs[e.d["mid"]] = e
         elif e.kind == "config_read":
             last_cfg[e.d["dev"]] = e.d["data"]
+            true_cfg.setdefault(e.d["dev"], e.d["data"])
+        elif e.kind == "config_set":
+            # the device has applied the change; it counts once the configure message has completed.  A configure
+            # interrupted half-way (device changed, engine's bookkeeping not done) leaves the truth unknown until
+            # the engine reads the configuration again - what the engine then records is what the object reported
+            pending_cfg[e.d["dev"]] = e.d["data"]
+            true_cfg.pop(e.d["dev"], None)
+        elif e.kind == "cmd" and e.d["cmd"] == "configure" and e.d["end"] != "ok":
+            m = msgs.get(e.d["mid"])
+            if m is not None:
+                pending_cfg.pop(m.d["obj"], None)
         elif e.kind == "cmd" and e.d["cmd"] == "configure" and e.d["end"] == "ok":
             m = msgs.get(e.d["mid"])
             if m is not None:
                 # the re-made descriptors are emitted while the configure message is being executed
                 configured_at[m.d["obj"]] = m.seq
+                if m.d["obj"] in pending_cfg:
+                    true_cfg[m.d["obj"]] = pending_cfg.pop(m.d["obj"])
         elif e.kind == "doc" and e.d["name"] == "descriptor":
             doc = e.d["doc"]
             descs[doc["uid"]] = (e.seq, doc)
@@ -120,6 +144,14 @@ def check(res):
                 want = last_cfg.get(obj)
                 if want is None:
                     out.append(V("configuration-without-read", f"descriptor {doc['name']!r} carries configuration for {obj} which was never read"))
+                elif obj in true_cfg and cfg.get("data") != true_cfg[obj]:
+                    out.append(
+                        V(
+                            "descriptor-configuration-out-of-date",
+                            f"descriptor {doc['name']!r}: configuration of {obj} is {cfg.get('data')} but the device is configured as {true_cfg[obj]} (it was configured after the engine last read it)",
+                            obj=obj,
+                        )
+                    )
                 elif cfg.get("data") != want:
                     out.append(
                         V(
